@@ -34,7 +34,8 @@ def dump (accts : List Addr) (s : State) : String :=
   let auto := sortStr (s.auto.map fun e => s!"{e.1.1}<{e.1.2}={showAuto e.2}")
   let recs := sortStr (s.recs.map showRec)
   let idx := sortStr (s.index.map fun e => s!"{e.1.1}<{e.1.2}={joinOr (sortStr (e.2.map showSfx)) ","}")
-  s!"bal:{joinOr bals ";"} | opt:{joinOr opt ","} | auto:{joinOr auto ";"} | rec:{joinOr recs ";"} | idx:{joinOr idx ";"}"
+  let inv := if fundsHolderBalanceInvariant s then "ok" else "broken"
+  s!"bal:{joinOr bals ";"} | opt:{joinOr opt ","} | auto:{joinOr auto ";"} | rec:{joinOr recs ";"} | idx:{joinOr idx ";"} | inv:{inv}"
 
 /-! ### parsing ops -/
 
@@ -88,6 +89,8 @@ def parseKeyVal? (s : String) : Option ((Addr × Addr) × String) :=
 structure Dump where
   accts : List Addr
   st : State
+  /-- what the chain's own `FundsHolderBalanceInvariant` said (true = not broken) -/
+  invOk : Bool
 
 def section? (parts : List String) (name : String) : Option String :=
   parts.findSome? fun p => if p.startsWith (name ++ ":") then some ((p.drop (name.length + 1)).toString) else none
@@ -108,7 +111,7 @@ def parseDump? (holder : Addr) (restricted : List Denom) (xfer : List Addr) (s :
     let (k, v) ← parseKeyVal? e
     pure (k, (splitList v ",").map parseSfx)
   let bank : Ledger := bals.flatMap fun (a, c) => Ledger.entries a c
-  pure { accts := bals.map (·.1),
+  pure { accts := bals.map (·.1), invOk := (section? parts "inv").getD "ok" = "ok",
          st := { holder, restricted, xfer, optin := opt.map (·, ()), auto, recs, index := idx, bank, qin := [], qout := [] } }
 
 /-! ### the checker: theorem conclusions on the implementation's states -/
@@ -133,22 +136,23 @@ def sameBalances (accts : List Addr) (p c : State) (ds : List Denom) : Bool :=
   accts.all fun a => ds.all fun d => Ledger.bal p.bank a d = Ledger.bal c.bank a d
 
 /-- invariants of a single state -/
-def stateChecks (c : State) (ds : List Denom) : List (Bool × String) :=
-  [ (holderCoversB c ds, "holder_covers_records"),
+def stateChecks (tainted : Bool) (invOk : Bool) (c : State) (ds : List Denom) : List (Bool × String) :=
+  [ (tainted || holderCoversB c ds, "holder_covers_records"),
+    (invOk = holderCoversB c ds, "chain_invariant_wrong"),
     (keyOKB c, "record_key_mismatch"),
     (noneFullyAcceptedB c, "fully_accepted_record_kept"),
     (indexOKB c, "index_incomplete") ]
 
 /-- `check prev op ok? released cur` -/
-def check (accts : List Addr) (p : State) (op : Op) (ok : Bool) (released : Coins) (c : State) : String :=
+def check (accts : List Addr) (tainted invOk : Bool) (p : State) (op : Op) (ok : Bool) (released : Coins) (c : State) : String :=
   let ds := allDenoms p c
   let h := p.holder
   if !ok then
     firstFail ([ (sameBalances accts p c ds && sameRecCoins p c ds && sameRecCoins c p ds
                   && p.optin.length = c.optin.length && p.auto.length = c.auto.length, "rejected_changes_state") ]
-               ++ stateChecks c ds)
+               ++ stateChecks tainted invOk c ds)
   else
-  let common : List (Bool × String) := stateChecks c ds ++
+  let common : List (Bool × String) := stateChecks tainted invOk c ds ++
     [ (ds.all fun d => totalOf accts p d = totalOf accts c d, "supply_not_conserved"),
       (!op.holderNeverSigns h || ds.all fun d => decide (slack p d ≤ slack c d), "holder_slack_decreased"),
       (!op.holderNotNamed h || ds.all fun d => slack p d = slack c d, "holder_slack_not_exact") ]
@@ -194,6 +198,9 @@ structure DState where
   accts : List Addr
   model : State
   impl : Option State
+  /-- an operation signed by the holder has succeeded in this history (outside the property's
+  quantifier; from then on only the clauses that do not presuppose it are evaluated) -/
+  tainted : Bool := false
 
 def holderName : Addr := "H"
 def restrictedDenoms : List Denom := ["rcoin"]
@@ -246,7 +253,7 @@ def stepD (σ : DState) (opLine : String) (impl : Option String) : DState × Str
       let bank : Ledger := bals.flatMap fun (a, c) => Ledger.entries a c
       let m := init holderName restrictedDenoms xferAddrs bank
       let implSt := impl.bind fun i => (parseDump? holderName restrictedDenoms xferAddrs (splitOut i).2).map (·.st)
-      ({ accts, model := m, impl := implSt }, s!"ok ;; {dump accts m}", "-")
+      ({ accts, model := m, impl := implSt, tainted := false }, s!"ok ;; {dump accts m}", "-")
   | _ =>
   match pureOp ws with
   | some out => (σ, out, match impl with | some i => checkPure ws i | none => "-")
@@ -271,7 +278,8 @@ def stepD (σ : DState) (opLine : String) (impl : Option String) : DState × Str
         let rel := match iw with
           | ["ok", c] => (parseCoins? c).getD []
           | _ => []
-        ({ σ with model := m', impl := some d.st }, out, check σ.accts p op ok rel d.st)
+        let tainted := σ.tainted || (ok && !op.holderNeverSigns holderName)
+        ({ σ with model := m', impl := some d.st, tainted }, out, check σ.accts tainted d.invOk p op ok rel d.st)
       | some d, none => ({ σ with model := m', impl := some d.st }, out, "-")
       | none, _ => ({ σ with model := m' }, out, "fail:unparsed_dump")
 
